@@ -38,7 +38,7 @@ def gen_keys(rng, n, allow_null=True):
     if allow_null and rng.random() < 0.4:
         for _ in range(rng.randint(1, 2)):
             col[rng.randrange(n)] = None
-    kind = rng.choice([k for k in ["float", "str", "int", "dt"] if api.kind_ok(col, k)])
+    kind = rng.choice([k for k in ["float", "str", "int", "dt", "dttz", "date"] if api.kind_ok(col, k)])
     return col, kind
 
 
@@ -190,7 +190,7 @@ def apply_stream(res, rng, tier, GroupBy):
         if not gp:
             continue
         try:
-            gb = GroupBy(pd.Series(api.make_key(col, kind, "numpy"), index=idx))
+            gb = GroupBy(api.make_key(col, kind, "pandas", index=idx))
             api.warm(gb, rng.choice([None, None, None] + api.WARM_OPS), n)
             m = None if mask is None else np.array(mask[1], dtype=bool)
             out = gb.apply(pd.Series(arr, index=idx), f, mask=m)
